@@ -133,15 +133,29 @@ func (db *MemDB) StoreExternal(ctx context.Context, duty core.Duty, signedSet co
 
 	output := make(map[core.PubKey][]core.ParSignedData)
 
+	// A rejected entry (e.g. a share equivocating for one validator) must not prevent the other
+	// validators of the same set from being stored and aggregated: entries already stored in this
+	// call would otherwise never trigger again, since the threshold is only detected by the call
+	// that reaches it. So remember the first error, keep going, and return it at the end.
+	var firstErr error
+
 	for pubkey, sig := range signedSet {
 		subcommIdx, err := core.SyncSubcommitteeIndex(duty.Type, sig.SignedData)
 		if err != nil {
-			return err
+			if firstErr == nil {
+				firstErr = err
+			}
+
+			continue
 		}
 
 		sigs, ok, err := db.store(ctx, key{Duty: duty, PubKey: pubkey, SubcommIdx: subcommIdx}, sig, exempt)
 		if err != nil {
-			return err
+			if firstErr == nil {
+				firstErr = err
+			}
+
+			continue
 		} else if !ok {
 			log.Debug(ctx, "Ignoring duplicate partial signature")
 
@@ -151,7 +165,11 @@ func (db *MemDB) StoreExternal(ctx context.Context, duty core.Duty, signedSet co
 		// Check if sufficient matching partial signed data has been received.
 		psigs, ok, err := getThresholdMatching(duty.Type, sigs, db.threshold)
 		if err != nil {
-			return err
+			if firstErr == nil {
+				firstErr = err
+			}
+
+			continue
 		} else if !ok {
 			continue
 		}
@@ -160,7 +178,7 @@ func (db *MemDB) StoreExternal(ctx context.Context, duty core.Duty, signedSet co
 	}
 
 	if len(output) == 0 {
-		return nil
+		return firstErr
 	}
 
 	// Call the threshSubs (which includes SigAgg component)
@@ -171,7 +189,7 @@ func (db *MemDB) StoreExternal(ctx context.Context, duty core.Duty, signedSet co
 		}
 	}
 
-	return nil
+	return firstErr
 }
 
 // Trim blocks until the context is closed, it deletes state for expired duties.
